@@ -1,6 +1,7 @@
 (** C25 — property theorems only. *)
 From Coq Require Import List ZArith NArith.
 From C33 Require Import C25.Model C25.Proofs C25.Proofs2.
+From C33 Require Import C25.ModelExt C25.ProofsExt C25.ProofsExt4 C25.ProofsExt5 C25.Check C25.ProofsCheck.
 Import ListNotations.
 Open Scope Z_scope.
 
@@ -50,3 +51,242 @@ Theorem C25_below_margin_order_dependent :
   tip (run 0 g [a; b]) = 1%N /\ tip (run 0 g [b; a]) = 2%N.
 Proof. exact below_margin_order_dependent. Qed.
 Print Assumptions C25_below_margin_order_dependent.
+
+(** * The extended model (ModelExt.v): orphan-pool limits, a finalizer that
+      moves, best-block comparison *)
+
+(** Conservativity.  With best-block comparison off, a history of deliveries
+    during which nothing leaves the orphan pool unindexed (nothing expires, the
+    limit is not reached, no orphan is rejected) and no delivery moves the
+    finalizer's choice ([plain], computed by the extended model) is a run of
+    Model.v with the initial finalized height as its constant: same index, pool
+    (in order), best chain view, connect/disconnect trace, and the same
+    ProcessBlock results at every delivery. *)
+Theorem C25_ext_conservative : forall P g fin0 hist,
+  pebc P = false -> plain P (xinit g fin0) hist = true ->
+  base_of (xrun P g fin0 hist) = run fin0 g (blocks_of hist) /\
+  map out3 (xouts P (xinit g fin0) hist) = outs fin0 (init g) (blocks_of hist) /\
+  xfin (xrun P g fin0 hist) = fin0.
+Proof. exact conservative. Qed.
+Print Assumptions C25_ext_conservative.
+
+Theorem C25_ext_conservative_nonvacuous :
+  let g := mkB 0 99 20 5 in
+  let order := [mkB 5 4 23 5; mkB 2 1 22 5; mkB 4 3 22 5; mkB 1 0 21 5; mkB 5 4 23 5; mkB 3 0 21 5] in
+  plain (noP 10240 600) (xinit g 0) (map (Dl 7) order) = true /\
+  xmain (xrun (noP 10240 600) g 0 (map (Dl 7) order)) = [5; 4; 3; 0]%N.
+Proof. exact conservative_example. Qed.
+Print Assumptions C25_ext_conservative_nonvacuous.
+
+(** Convergence under the pool limits and a moving finalizer.  [T]: the tree as
+    in C25_converges; [J]: any further blocks whose parent is not in [T]
+    (unconnected blocks; hashes distinct from each other and from [T]'s).
+    [hist]: deliveries (with receive times) of blocks of [T] and [J] and finalize
+    events, in any order.  Guards (booleans computed by the model from the
+    history): [kept_all] - every block of [T] was delivered and not dropped
+    from the pool (expired, pushed out, rejected) after its last delivery;
+    [steady] - no delivery lowered the finalizer's choice.  Then: if [H] is the
+    unique heaviest block among the branches through the finally chosen block
+    (among all blocks when the finalizer never chose) and at least 12 above the
+    chosen height, the best chain is [H]'s ancestor list. *)
+Theorem C25_ext_converges : forall (P : params) (g : block) (T J : list block),
+  In g T -> NoDup (map bid (T ++ J)) ->
+  (forall b, In b T -> exists l td, path g T b l td) ->
+  (forall b, In b T -> 0 <= bdiff b) ->
+  0 <= bht g ->
+  (forall j, In j J -> ~ In (bpar j) (map bid T)) ->
+  forall fin0 hist H lH tdH,
+  (forall now b, In (Dl now b) hist -> In b (T ++ J)) ->
+  kept_all P g fin0 T hist = true ->
+  steady P g fin0 hist = true ->
+  let s := xrun P g fin0 hist in
+  path g T H lH tdH ->
+  through (xfh s) lH ->
+  (forall x l td, path g T x l td -> through (xfh s) l -> x <> H -> td < tdH) ->
+  xfin s + 12 <= bht H ->
+  xtip s = bid H /\ xmain s = lH /\ xtip_td s = tdH.
+Proof. exact ext_converges. Qed.
+Print Assumptions C25_ext_converges.
+
+(** every hypothesis at once on a history that drops a needed block (delivered
+    again later) and an unconnected one, and finalizes block 2: the heaviest
+    block overall (22, on a branch not through 2) is not the tip; the heaviest
+    through 2 is *)
+Theorem C25_ext_converges_nonvacuous :
+  let P := noP 2 600 in
+  tree_ok w4_g w4_T w4_J = true /\ in_universeb w4_T w4_J w4_hist = true /\
+  map o_lost (xouts P (xinit w4_g 0) w4_hist) =
+    [[]; []; []; []; []; []; []; []; [97%N]; [4%N]; []; []; []; []; []; []; []; []; []; []; []] /\
+  kept_all P w4_g 0 w4_T w4_hist = true /\ steady P w4_g 0 w4_hist = true /\
+  let s := xrun P w4_g 0 w4_hist in
+  xfin s = 2 /\ xfh s = Some 2%N /\
+  pathb 20 w4_g w4_T (w4_b 13) = Some ([14; 13; 12; 11; 10; 9; 8; 7; 6; 5; 4; 3; 2; 1; 0]%N, 75) /\
+  heaviest_through w4_g w4_T (xfh s) (w4_b 13) 75 = true /\
+  heaviest_through w4_g w4_T None (w4_b 13) 75 = false /\
+  xfin s + margin <=? bht (w4_b 13) = true /\
+  xmain s = [14; 13; 12; 11; 10; 9; 8; 7; 6; 5; 4; 3; 2; 1; 0]%N /\ xtip_td s = 75.
+Proof. exact ext_converges_guards_example. Qed.
+Print Assumptions C25_ext_converges_nonvacuous.
+
+(** the boolean forms used in the instances imply the hypotheses *)
+Theorem C25_tree_ok_sound : forall g T J, tree_ok g T J = true -> tree_hyps g T J.
+Proof. exact tree_ok_sound. Qed.
+Print Assumptions C25_tree_ok_sound.
+
+Theorem C25_heaviest_through_sound : forall g T J fo H tdH, tree_hyps g T J ->
+  heaviest_through g T fo H tdH = true ->
+  forall x l td, path g T x l td -> through fo l -> x <> H -> td < tdH.
+Proof. exact heaviest_through_sound. Qed.
+Print Assumptions C25_heaviest_through_sound.
+
+(** The [kept_all] guard is necessary: "every block was delivered at least
+    once" is not enough, an evicted ancestor stops the cascade. *)
+Theorem C25_converges_unkept_refuted : ~ converges_unkept_full.
+Proof. exact converges_unkept_refuted. Qed.
+Print Assumptions C25_converges_unkept_refuted.
+
+(** the refutation's history (pool limit 2): block 3 is pushed out by an
+    unconnected block, the tip stays at 2; delivering 3 again converges *)
+Theorem C25_evicted_ancestor_example :
+  let P := noP 2 600 in
+  map o_lost (xouts P (xinit w2_g 0) w2_hist) = [[]; []; [3%N]; []] /\
+  kept_all P w2_g 0 w2_T w2_hist = false /\
+  xtip (xrun P w2_g 0 w2_hist) = 2%N /\
+  let again := w2_hist ++ [Dl 4 (mkB 3 2 23 5)] in
+  kept_all P w2_g 0 w2_T again = true /\ steady P w2_g 0 again = true /\
+  xmain (xrun P w2_g 0 again) = [3; 2; 1; 0]%N.
+Proof. exact evicted_ancestor_example. Qed.
+Print Assumptions C25_evicted_ancestor_example.
+
+Theorem C25_expired_ancestor_example :
+  let P := noP 10240 600 in
+  let hist := [Dl 0 (mkB 3 2 23 5); Dl 601 (mkB 2 1 22 5); Dl 602 (mkB 1 0 21 5)] in
+  map o_lost (xouts P (xinit w2_g 0) hist) = [[]; [3%N]; []] /\
+  xtip (xrun P w2_g 0 hist) = 2%N /\
+  xmain (xrun P w2_g 0 (hist ++ [Dl 603 (mkB 3 2 23 5)])) = [3; 2; 1; 0]%N.
+Proof. exact expired_ancestor_example. Qed.
+Print Assumptions C25_expired_ancestor_example.
+
+(** Re-delivery.  After ANY history [pre] (whatever the pool dropped), a suffix
+    that delivers every block of the tree after its parent ([parents_first];
+    finalize events anywhere) leaves nothing dropped: [kept_all] holds for the
+    whole history, hence convergence (when no delivery lowered the choice). *)
+Theorem C25_redelivery_converges : forall (P : params) (g : block) (T J : list block),
+  In g T -> NoDup (map bid (T ++ J)) ->
+  (forall b, In b T -> exists l td, path g T b l td) ->
+  (forall b, In b T -> 0 <= bdiff b) ->
+  0 <= bht g ->
+  (forall j, In j J -> ~ In (bpar j) (map bid T)) ->
+  forall fin0 pre suf H lH tdH,
+  (forall now b, In (Dl now b) pre -> In b (T ++ J)) ->
+  (forall now b, In (Dl now b) suf -> In b (T ++ J)) ->
+  parents_first [bid g] suf = true ->
+  (forall b, In b T -> b = g \/ In b (blocks_of suf)) ->
+  steady P g fin0 (pre ++ suf) = true ->
+  let s := xrun P g fin0 (pre ++ suf) in
+  path g T H lH tdH ->
+  through (xfh s) lH ->
+  (forall x l td, path g T x l td -> through (xfh s) l -> x <> H -> td < tdH) ->
+  xfin s + 12 <= bht H ->
+  xtip s = bid H /\ xmain s = lH /\ xtip_td s = tdH.
+Proof. exact redelivery_converges. Qed.
+Print Assumptions C25_redelivery_converges.
+
+(** The finalizer's choice is on the best chain after every history: the chosen
+    hash is in the view and indexed at the chosen height. *)
+Theorem C25_finalizer_on_best_chain : forall (P : params) (g : block) (T J : list block),
+  In g T -> NoDup (map bid (T ++ J)) ->
+  (forall b, In b T -> exists l td, path g T b l td) ->
+  (forall b, In b T -> 0 <= bdiff b) ->
+  0 <= bht g ->
+  (forall j, In j J -> ~ In (bpar j) (map bid T)) ->
+  forall fin0 hist,
+  (forall now b, In (Dl now b) hist -> In b (T ++ J)) ->
+  let s := xrun P g fin0 hist in
+  forall f, xfh s = Some f -> In f (xmain s) /\ node_height f (xidx s) = Some (xfin s).
+Proof. exact finalizer_on_best_chain. Qed.
+Print Assumptions C25_finalizer_on_best_chain.
+
+(** "A block the finalizer chose stays on the best chain for every later
+    history": the code does not meet it.  connectBestChain does not refuse a
+    heavier branch that forks below the finalized height and reaches
+    finalized + 12: it lowers the choice to the fork point and reorganises
+    (known finding 1, reproduced on nodes by the harness). *)
+Theorem C25_finalized_stays_refuted : ~ finalized_stays_full.
+Proof. exact finalized_stays_refuted. Qed.
+Print Assumptions C25_finalized_stays_refuted.
+
+Theorem C25_finalized_reset_example :
+  let s := xrun (noP 10240 600) w1_g 0 (w1_pre ++ w1_suf) in
+  xfin s = 1 /\ xfh s = Some 1%N /\ xtip s = 16%N /\
+  steady (noP 10240 600) w1_g 0 (w1_pre ++ w1_suf) = false.
+Proof. exact finalized_reset_example. Qed.
+Print Assumptions C25_finalized_reset_example.
+
+(** What holds: the chosen block stays for every later history when every
+    block off its branches is below its height + 12 ([fin_safe], a boolean over
+    the tree) ... *)
+Theorem C25_finalized_stays_partial : forall P g T J fin0 pre suf f,
+  tree_hyps g T J -> in_universe T J pre -> in_universe T J suf ->
+  let s1 := xrun P g fin0 pre in
+  xfh s1 = Some f ->
+  fin_safe g T f (xfin s1) = true ->
+  In f (xmain (xrun P g fin0 (pre ++ suf))).
+Proof. exact finalized_stays_partial. Qed.
+Print Assumptions C25_finalized_stays_partial.
+
+(** ... and, whatever the tree, as long as no later delivery lowers the choice
+    ([steady_from], computed by the model from the later history). *)
+Theorem C25_finalized_stays_steady : forall (P : params) (g : block) (T J : list block),
+  In g T -> NoDup (map bid (T ++ J)) ->
+  (forall b, In b T -> exists l td, path g T b l td) ->
+  (forall b, In b T -> 0 <= bdiff b) ->
+  0 <= bht g ->
+  (forall j, In j J -> ~ In (bpar j) (map bid T)) ->
+  forall fin0 pre suf f,
+  in_universe T J pre -> in_universe T J suf ->
+  xfh (xrun P g fin0 pre) = Some f ->
+  steady_from P (xrun P g fin0 pre) suf = true ->
+  In f (xmain (xrun P g fin0 (pre ++ suf))).
+Proof. exact finalized_stays_steady. Qed.
+Print Assumptions C25_finalized_stays_steady.
+
+(** the guard on a non-trivial instance: the witness tree with the competing
+    (heavier) branch one block shorter *)
+Theorem C25_finalized_stays_nonvacuous :
+  tree_ok w1_g w1_T' [] = true /\
+  xfh (xrun (noP 10240 600) w1_g 0 w1_pre) = Some 2%N /\
+  fin_safe w1_g w1_T' 2%N (xfin (xrun (noP 10240 600) w1_g 0 w1_pre)) = true /\
+  xmain (xrun (noP 10240 600) w1_g 0 (w1_pre ++ w1_suf')) = [3; 2; 1; 0]%N.
+Proof. exact finalized_stays_example. Qed.
+Print Assumptions C25_finalized_stays_nonvacuous.
+
+(** Observations about the code as modelled. *)
+Theorem C25_stale_pointer_example :
+  let P := noP 2 600 in
+  let hist := [Dl 0 (mkB 2 1 22 5); Dl 1 (mkB 7 555 30 1); Dl 2 (mkB 1 0 21 5);
+               Dl 3 (mkB 8 556 30 1); Dl 4 (mkB 9 557 30 1)] in
+  map o_lost (xouts P (xinit w2_g 0) hist) = [[]; []; []; []; []] /\
+  length (xorph (xrun P w2_g 0 hist)) = 3%nat.
+Proof. exact stale_pointer_example. Qed.
+Print Assumptions C25_stale_pointer_example.
+
+Theorem C25_best_block_cmp_example :
+  let g := mkB 0 99 20 5 in
+  let hist := [Dl 0 (mkB 1 0 21 5); Dl 0 (mkB 2 0 21 5)] in
+  xtip (xrun (mkP 10240 600 true (fun n t => N.eqb n 2)) g 0 hist) = 2%N /\
+  xtip (xrun (mkP 10240 600 false (fun n t => N.eqb n 2)) g 0 hist) = 1%N /\
+  xtip (xrun (mkP 10240 600 true (fun n t => N.eqb n 2)) g 10 hist) = 1%N.
+Proof. exact best_block_cmp_example. Qed.
+Print Assumptions C25_best_block_cmp_example.
+
+(** The guard that the correspondence check evaluates is the theorems' guard:
+    the accumulator of an accepted case is the tracked run ([xrun], [held_of],
+    [steady]) over the case's events written out as a history. *)
+Theorem C25_check_guard_is_theorem_guard : forall P T evs obs fmain pool g T' a,
+  T = g :: T' -> model_ok_x P T evs obs fmain pool = Some a ->
+  acc_state a = xrun P g 0 (expand T evs) /\
+  snd (fst a) = held_of P g 0 (expand T evs) /\
+  snd a = steady P g 0 (expand T evs).
+Proof. exact check_guard_is_theorem_guard. Qed.
+Print Assumptions C25_check_guard_is_theorem_guard.
